@@ -20,7 +20,8 @@ def prepare_tests(dst):
             text = open(os.path.join(root, fn)).read()
             if "common" not in rel:
                 text = re.sub(r"\.to_string\(\)", ".vto_string()", text)
-            text = "#[allow(unused_imports)] use basic::vshim::prelude::{VToString, VStr};\n#[allow(unused_imports)] use basic::vec;\n" + text
+                text = re.sub(r"\bVec<(Statement|Expression|Variable)>", r"BVec<\1>", text)
+            text = "#[allow(unused_imports)] use basic::vshim::prelude::{VToString, VStr, BVec};\n#[allow(unused_imports)] use basic::vec;\n" + text
             os.makedirs(os.path.dirname(os.path.join(tdst, rel)), exist_ok=True)
             open(os.path.join(tdst, rel), "w").write(text)
             n += 1
@@ -33,7 +34,7 @@ def run(keep=False):
         gen.generate(d, "vshim", {})
         prepare_tests(d)
         env = dict(os.environ)
-        env.update({"CARGO_NET_OFFLINE": "true", "RUSTFLAGS": "-Awarnings", "RUST_MIN_STACK": "1073741824"})
+        env.update({"CARGO_NET_OFFLINE": "true", "RUSTFLAGS": "-Awarnings", "RUST_MIN_STACK": "4294967296"})
         p = subprocess.run(["cargo", "test", "--offline", "--no-fail-fast", "--", "--test-threads", "4"], cwd=d, env=env,
                            stdout=subprocess.PIPE, stderr=subprocess.STDOUT, text=True)
         passed = sum(int(m.group(1)) for m in re.finditer(r"test result: \w+\. (\d+) passed", p.stdout))
